@@ -103,10 +103,11 @@ MUTANTS = [
     ("c15_cache_key_too_coarse", "C15", "pytrs/parser/trs/trs.py",
      "        self.__trs_dict = TRS.__CACHE.get(new_trs, None)",
      "        self.__trs_dict = TRS.__CACHE.get(str(new_trs)[:8], None)"),
-    ("c13_parse_uses_import_time_default", "C13",
+    ("c13_masterconfig_fallback_frozen_in_parse", "C13",
      "pytrs/parser/plssdesc/plssdesc.py",
-     '            "default_ns": default_ns,\n            "default_ew": default_ew,\n            "ocr_scrub": ocr_scrub,\n            "sec_within"',
-     '            "default_ew": default_ew,\n            "ocr_scrub": ocr_scrub,\n            "sec_within"'),
+     "        if not default_ns:\n            default_ns = self.default_ns\n",
+     "        if not default_ns:\n            default_ns = self.default_ns\n"
+     "        if default_ns is None:\n            default_ns = 'n'\n"),
     ("c15_cache_off_returns_none", "C15", "pytrs/parser/trs/trs.py",
      "        if TRS._USE_CACHE:\n            TRS.__CACHE[trs] = dct\n        return dct",
      "        if TRS._USE_CACHE:\n            TRS.__CACHE[trs] = dct\n            return dct"),
